@@ -210,3 +210,24 @@ pub fn deep_docs(thorough: bool) -> Vec<Value> {
     }
     out
 }
+
+/// nesting depth of a value (iterative on the first child chain is not enough: full walk, explicit stack)
+pub fn depth(v: &Value) -> usize {
+    let mut max = 0;
+    let mut stack: Vec<(&Value, usize)> = vec![(v, 0)];
+    while let Some((x, d)) = stack.pop() {
+        max = max.max(d);
+        match x {
+            Value::Array(a) => stack.extend(a.iter().map(|y| (y, d + 1))),
+            Value::Object(m) => stack.extend(m.values().map(|y| (y, d + 1))),
+            _ => {}
+        }
+    }
+    max
+}
+
+/// a query with several descendant segments on a very deep document yields depth^k nodes, each with a path of
+/// `depth` steps: such pairs are left out of the products that pair every sentence with every panel document
+pub fn too_big(query: &str, doc_depth: usize) -> bool {
+    doc_depth > 64 && query.matches("..").count() >= 2
+}
